@@ -343,6 +343,7 @@ func GenUnmarshalFamily(w *Writer, r *Rng, t Tier) error {
 	if c, err := xsel.ReadXml(strings.NewReader("<r><a k='1'>1</a><b>2</b><!--c--><?p d?></r>")); err == nil {
 		GenUnmarshalTargets(w, r.Fork(), DumpTree(c), "unm-static-targets")
 	}
+	unmProbes(w, "unm")
 	for di := 0; di < t.Docs; di++ {
 		dr := r.Fork()
 		cfg := DefaultDocCfg()
@@ -490,4 +491,84 @@ func GenUnmarshalFamily(w *Writer, r *Rng, t Tier) error {
 		}
 	}
 	return nil
+}
+
+// unmProbes: histories and shapes of Unmarshal calls that the generated targets (reflect.StructOf types, one
+// document, one call) cannot express.  Each probe is self-contained: the outcome must be "ok".
+func unmProbes(w *Writer, fam string) {
+	read := func(text string) xsel.Cursor {
+		c, err := xsel.ReadXml(strings.NewReader(text))
+		if err != nil {
+			panic(err)
+		}
+		return c
+	}
+	nodes := func(c xsel.Cursor, q string) xsel.NodeSet {
+		g := xsel.MustBuildExpr(q)
+		ns, err := xsel.ExecAsNodeset(c, &g)
+		if err != nil {
+			panic(err)
+		}
+		return ns
+	}
+	// (1) two DIFFERENT struct types that print alike (function-local types of the same name) with the same
+	// field name and different tags: every field is filled by ITS OWN tag, whatever was unmarshalled before
+	sameName := guard(func() string {
+		c := read("<r><a>1</a><b>2</b></r>")
+		res := nodes(c, "/r")
+		first := func() string {
+			type rec struct {
+				V string `xsel:"a"`
+			}
+			var t rec
+			if err := xsel.Unmarshal(res, &t); err != nil {
+				return "err"
+			}
+			return t.V
+		}
+		second := func() string {
+			type rec struct {
+				V string `xsel:"b"`
+			}
+			var t rec
+			if err := xsel.Unmarshal(res, &t); err != nil {
+				return "err"
+			}
+			return t.V
+		}
+		if got := first() + second() + first() + second(); got != "1212" {
+			return "same-named-types-share-tags: " + got
+		}
+		return "ok"
+	})
+	w.Line("fuzz", okOnly(sameName == "ok", sameName), map[string]interface{}{"k": "fuzz", "fam": fam + "-same-name-types", "text": "two function-local struct types of the same name, same field name, different tags, unmarshalled in turn", "outcome": sameName, "expect": "ok", "n": 4})
+	// (2) one call over nodes of TWO documents: an absolute path in a tag starts at the root of the document
+	// of the node the struct is filled from
+	twoDocs := guard(func() string {
+		type item struct {
+			X string `xsel:"x"`
+			V string `xsel:"/r/v"`
+			N int    `xsel:"count(//x)"`
+		}
+		d1 := read("<r><v>1</v><i><x>a</x></i></r>")
+		d2 := read("<r><v>2</v><i><x>b</x></i><i><x>c</x></i></r>")
+		show := func(ns xsel.NodeSet) string {
+			var t []item
+			if err := xsel.Unmarshal(ns, &t); err != nil {
+				return "err"
+			}
+			return fmt.Sprint(t)
+		}
+		a := show(append(append(xsel.NodeSet{}, nodes(d1, "//i")...), nodes(d2, "//i")...))
+		b := show(append(append(xsel.NodeSet{}, nodes(d2, "//i")...), nodes(d1, "//i")...))
+		if a != "[{a 1 1} {b 2 2} {c 2 2}]" || b != "[{b 2 2} {c 2 2} {a 1 1}]" {
+			return "absolute-tag-path-in-the-wrong-document: " + a + " " + b
+		}
+		var ptrs []*item
+		if err := xsel.Unmarshal(append(append(xsel.NodeSet{}, nodes(d1, "//i")...), nodes(d2, "//i[1]")...), &ptrs); err != nil || len(ptrs) != 2 || ptrs[1] == nil || ptrs[1].V != "2" {
+			return "absolute-tag-path-in-the-wrong-document (pointer elements)"
+		}
+		return "ok"
+	})
+	w.Line("fuzz", okOnly(twoDocs == "ok", twoDocs), map[string]interface{}{"k": "fuzz", "fam": fam + "-two-documents", "text": "a slice of structs with absolute tag paths filled from nodes of two documents", "outcome": twoDocs, "expect": "ok", "n": 3})
 }
